@@ -49,7 +49,9 @@ func gifPost(obs string) string {
 				}
 			}
 			pix := "?"
-			if err == nil && cs >= 2 && cs <= 8 && ws[i+11] != "~" {
+			if ws[i+11] == "-" {
+				pix = "-" // no image data at all
+			} else if err == nil && cs >= 2 && cs <= 8 && ws[i+11] != "~" {
 				func() {
 					defer func() { _ = recover() }()
 					rd := lzw.NewReader(bytes.NewReader(hlib.UnHex(ws[i+11])), lzw.LSB, cs)
